@@ -3,14 +3,18 @@ module verif
 go 1.26
 
 require (
-	github.com/segmentio/kafka-go v0.0.0
 	github.com/anishathalye/porcupine v1.3.0
-	github.com/golang/snappy v0.0.1
 	github.com/eapache/go-xerial-snappy v0.0.0-20180814174437-776d5712da21
+	github.com/golang/snappy v0.0.1
 	github.com/klauspost/compress v1.15.9
 	github.com/pierrec/lz4/v4 v4.1.15
+	github.com/segmentio/kafka-go v0.0.0
+	github.com/xdg-go/pbkdf2 v1.0.0
 	github.com/xdg-go/scram v1.1.2
+	github.com/xdg-go/stringprep v1.0.4
 	pgregory.net/rapid v1.3.0
 )
+
+require golang.org/x/text v0.23.0 // indirect
 
 replace github.com/segmentio/kafka-go => /repo
